@@ -99,6 +99,31 @@ func C10(c *Case) *Result {
 			rec.Shape = []string{"wav", "bmp"}[t.Intn(2)]
 		}
 	}
+	if t.Intn(10) == 0 {
+		// large-block regime: one or two blocks of 150 KiB .. 1 MiB (thorough: up to 5 MiB) of
+		// compressible data. Codecs switch parameters with the amount of data in a block (chunk
+		// sizes of the entropy coders inside and outside the transforms, hash and table sizes, the
+		// number of BWT primary indexes): constants that only matter above some size are part of
+		// the format too
+		hi := 1 << 20
+		if c.Thorough() {
+			hi = 5 << 20
+		}
+		cfg.BlockSize = 256*1024 + 16*t.Intn((hi-256*1024)/16)
+		big := []string{"ROLZ", "ROLZX", "LZ", "LZX", "LZP", "BWT", "BWTS", "TEXT", "RLT", "ZRLT", "MTFT", "SRT", "RANK", "PACK", "UTF", "EXE", "MM", "DNA", "NONE"}
+		cfg.Transform = big[t.Intn(len(big))]
+		if t.Intn(3) == 0 {
+			cfg.Transform = []string{"TEXT", "RLT", "PACK", "LZP"}[t.Intn(4)] + "+" + big[t.Intn(len(big)-1)]
+		}
+		cfg.Entropy = []string{"NONE", "HUFFMAN", "ANS0", "ANS1", "RANGE", "FPAQ", "CM"}[t.Intn(7)]
+		cfg.Jobs, cfg.DecJobs = min(cfg.Jobs, 2), min(cfg.DecJobs, 2)
+		rec.Shape = []string{"prose", "text", "mixed", "utf8", "exe", "numeric", "base64", "skewed", "dna", "wav"}[t.Intn(10)]
+		rec.Len = 150000 + t.Intn(cfg.BlockSize)
+		if t.Intn(4) == 0 {
+			rec.Len += cfg.BlockSize / 2
+		}
+		res.Probes["large.block.regime"]++
+	}
 	data := rec.Bytes()
 	hintValue(&cfg, len(data), t)
 	if cfg.Hint == "smaller" {
